@@ -2,8 +2,26 @@
 """Regenerates MANIFEST.json from the table below (kept as a script so the manifest stays valid and uniform)."""
 import json, sys
 CLAIMED = {
+ "C01": dict(note="Generated workspaces (conftest hierarchy, helper modules imported by star/explicit/pytest_plugins, overrides, same-named definitions in siblings, synthetic venv with plugins and editable installs) scanned by the real scan_workspace under seeded schedule/workers/shards/hash seed/readdir order; every usage token x every column resolved and compared with an independent reference model of pytest's lookup.",
+             technique="deterministic simulation: seeded scan schedules over generated workspaces, reference-model oracle", ref="§8 C01, §7.1"),
+ "C02": dict(note="Same engine biased to override chains; go-to-definition at EVERY column of each overriding def line, references at the name span, each test's binding; oracle = reference model with self-exclusion.",
+             technique="deterministic simulation: seeded scan schedules, reference-model oracle with self-exclusion", ref="§8 C02"),
+ "C04": dict(note="All (definition, usage) pairs after real scans of generated workspaces and after EVERY prefix of generated edit histories: usage in references(D) <=> go-to-definition(U)=D; code lens = incoming calls (+same-line rule) = |references|; unused list = zero-reference project fixtures; reverse index mirrors forward index.",
+             technique="deterministic simulation: seeded scans and edit histories, internal-equivalence oracle", ref="§8 C04, §7.2"),
+ "C05": dict(note="At every usage position seven real handlers (definition, hover, implementation, prepareCallHierarchy, outgoingCalls, inlayHint, completion) called on the real Backend and compared with each other and with get_available_fixtures; workspaces with names defined twice in a file and registration order varied by the schedule.",
+             technique="deterministic simulation: seeded scan schedules, cross-feature agreement oracle", ref="§8 C05, §7.2"),
+ "C06": dict(note="Generated edit histories (add/remove/rename, removal-only, import-only, syntax break/repair, identical resend); after EVERY prefix the long-lived index is compared with a fresh twin built from the latest valid contents (maps as multisets, normalised answer snapshot, undeclared findings of the last-changed document).",
+             technique="deterministic simulation: seeded edit histories vs fresh-twin reference", ref="§8 C06, §7.3"),
+ "C07": dict(note="Histories interleaving analyses with cache-filling queries (incl. order-sensitive probes), open/close of unmodified documents and cache pressure (2001 filler files => real eviction); warm answers compared with a cold twin at each checkpoint; 3-module import rings entered at two points.",
+             technique="deterministic simulation with fault injection (close, eviction, query order): warm-vs-cold twin oracle", ref="§8 C07, §7.4"),
+ "C08": dict(note="One workspace scanned K times (4 quick / 8 thorough) by the real scanner under different strategy, worker count, readdir permutation, std hash seed (= new process), DashMap hasher key and shard count; all normalised snapshots (resolution, references, available fixtures, cycles, scope mismatches, symbols, lenses, inlay hints, unused list) must be equal.",
+             technique="deterministic simulation: same input under K seeded schedules/configurations, snapshot-equality oracle", ref="§8 C08, §7.6"),
  "C09": dict(note="2-3 concurrent analyze_file/analyze_file_fresh on distinct files sharing names, op-level interleavings (random walk + PCT, 1/2/4 shards); oracle: index equals some sequential execution as multisets, reverse indices mirror forward ones.",
              technique="deterministic simulation: seeded schedule search over DashMap lock points, sequential-outcome oracle", ref="§8 C09, §7.5"),
+ "C14": dict(note="Generated import graphs (star/explicit/pytest_plugins, relative/absolute, transitive, cycles, 3-module rings, last-assignment-wins) and synthetic venvs (dist-info/egg-info entry points, module vs package targets, _pytest, in-workspace editable installs, .pth naming variants); visible names, origins and third-party/plugin classification compared with the reachability model and across two sigmas; third-party never among symbols.",
+             technique="deterministic simulation: seeded scans (hash seed, readdir order, schedule), reachability-model oracle", ref="§8 C14, §7.1"),
+ "C16": dict(note="Generated dependency graphs (rings, self-loops with/without parent, overridden names, unknown deps) x scope assignments; reported cycles must be closed chains in the reference graph over resolved definitions, every cyclic SCC reported, override pattern never a cycle, scope mismatch iff resolved dependency is narrower; stability across sigma is checked by C08's snapshot.",
+             technique="deterministic simulation: seeded scans, reference dependency-graph oracle", ref="§8 C16, §7.1"),
 }
 NA = {
  "C03": "pure function of one file's text (no schedule, clock, I/O, fault or history in the statement); needs a CPython-parser differential over a grammar, which is input generation, not simulation",
